@@ -80,6 +80,7 @@ struct call_ctx
     bool reload = false;     // VEGAS: the (zero-result) checkpoint goes through its text form before the first iteration
     std::size_t md = 0;      // multi channel: number of coordinates (map dimensions) if different from the number of random numbers
     bool md0 = false;        // multi channel: a map without coordinates (it keeps the kinematics itself): map dimensions 0
+    bool nested = false;     // multi channel: the integrand itself runs a small integration of the same kind and numeric type (a nested integral)
 
     value_spec const& spec() const { return plan[call % plan.size()]; }
 
@@ -126,6 +127,7 @@ struct traced_map
             T p;
             if (c->cfg.densfam == 0) p = T(1);                                  // all equal
             else if (c->cfg.densfam == 1) p = (i % 2 == 0) ? T(0.5) : T(1.5);   // alpha = (1/2, 1/2): sum = 1
+            else if (c->cfg.densfam == 3) p = i == 0 ? T() : T(1);               // channel 0 never contributes
             else p = T(1);
             if (c->cfg.w[i] == 0) p = T(3);                                      // disabled channel: irrelevant
             de[i] = p * scale;
@@ -230,6 +232,22 @@ struct traced_vegas_fn
     }
 };
 
+// a small multi channel integration that nobody observes (its own engine, its own buffers)
+template <typename T> inline T nested_integral()
+{
+    auto map = [](std::size_t ch, std::vector<T> const& r, std::vector<T>& co, std::vector<std::size_t> const&, std::vector<T>& de, hep::multi_channel_map) {
+        co[0] = ch ? r[0] * r[0] : r[0];
+        de[0] = T(1);
+        de[1] = co[0] > T() ? T(0.5) / std::sqrt(co[0]) : T(1);
+        return T(1);
+    };
+    auto fn = [](hep::multi_channel_point<T> const& p) { return T(1) + p.coordinates()[0]; };
+    auto chk = hep::make_multi_channel_chkpt<T>();
+    using C = decltype(chk);
+    auto r = hep::multi_channel(hep::make_multi_channel_integrand<T>(fn, 1, map, 1, 2), std::vector<std::size_t>{3}, chk, hep::callback<C>(hep::callback_mode::silent));
+    return r.results()[0].value();
+}
+
 template <typename T>
 struct traced_mc_fn
 {
@@ -253,6 +271,7 @@ struct traced_mc_fn
             ev("IntBegin").i("fseq", seq++).i("unitOK", unit ? 1 : 0).i("chan", (long long) p.channel()).i("csum", ids().id("c:" + hexvec(p.coordinates())))
                 .i("caddr", addr_id(&p.coordinates())).emit();
         value_spec const& vs = x.spec();
+        if (x.nested) (void) nested_integral<T>();
         T w = T();
         if (vs.wreq) { if (x.log_calls) ev("WeightReq").emit(); w = p.weight(); }
         int_end(x, vs, vs.wreq, w, std::vector<long long>());
@@ -413,6 +432,57 @@ inline void run_mc(call_ctx<T>& c, E const& engine, std::vector<T> const& weight
         iter_end(c, chk.results().back(), adj_ints(chk.results().back().adjustment_data(), 2 + 3 * WS), expect == chk.generator(),
             hep::random_number_usage<T, E>());
     }
+}
+
+template <typename T, typename E, typename C>
+struct mc_multi_cb
+{
+    call_ctx<T>* c;
+    std::vector<std::size_t> const* iters;
+    std::size_t* index;
+    E* before;
+    std::size_t k, n;
+    bool operator()(C const& chk)
+    {
+        std::size_t const N = (*iters)[*index];
+        E expect = *before;
+        expect.discard((unsigned long long) N * (c->cfg.d + 1) * hep::random_number_usage<T, E>());
+        iter_end(*c, chk.results().back(), adj_ints(chk.results().back().adjustment_data(), 2 + 3 * WS), expect == chk.generator(), hep::random_number_usage<T, E>());
+        *before = chk.generator();
+        ++*index;
+        if (*index != iters->size())
+        {
+            // the weights the next iteration of this very call will use
+            c->cfg.calls = (*iters)[*index];
+            c->cfg.w.clear();
+            for (T x : chk.channel_weights()) c->cfg.w.push_back(x != T() ? 1 : 0);
+            ev("IterBegin").s("kind", "mc").s("T", type_name<T>::get()).i("d", (long long) c->cfg.d).i("k", (long long) k).i("n", (long long) n)
+                .a("w", c->cfg.w).i("bins", 0).i("calls", (long long) c->cfg.calls).i("noSq", c->vexp != 0 ? 1 : 0).emit();
+            c->last_draws = cnt().draws;
+        }
+        return true;
+    }
+};
+
+// all iterations in one call of hep::multi_channel
+template <typename T, typename E>
+inline void run_mc_multi(call_ctx<T>& c, E const& engine, std::vector<T> const& weights, std::vector<std::size_t> const& iters)
+{
+    auto chk = hep::make_multi_channel_chkpt<T, E>(weights, T(), T(0.25), engine);
+    using C = decltype(chk);
+    std::size_t k = measured_k<T>(engine);
+    std::size_t n = weights.size();
+    chk.channels(n);
+    c.cfg.calls = iters[0];
+    c.cfg.w.clear();
+    for (T x : chk.channel_weights()) c.cfg.w.push_back(x != T() ? 1 : 0);
+    ev("IterBegin").s("kind", "mc").s("T", type_name<T>::get()).i("d", (long long) c.cfg.d).i("k", (long long) k).i("n", (long long) n)
+        .a("w", c.cfg.w).i("bins", 0).i("calls", (long long) iters[0]).i("noSq", c.vexp != 0 ? 1 : 0).emit();
+    c.last_draws = cnt().draws;
+    E before = chk.generator();
+    std::size_t index = 0;
+    hep::multi_channel(hep::make_multi_channel_integrand<T>(traced_mc_fn<T>{&c}, c.cfg.d, traced_map<T>{&c}, c.cfg.d, n), iters, chk,
+        mc_multi_cb<T, E, C>{&c, &iters, &index, &before, k, n});
 }
 
 } // namespace vt
